@@ -30,6 +30,7 @@ class Ctx:
         self.config = config
         self.instances = []
         self.rule_stats = {}
+        self.crashed = {}               # rule id -> traceback tail of a rule module that raised
         # anchor floors are the counts confirmed on the reference tree.  The frozen reference (fixtures/base) is held to them
         # exactly on every run (that is what detects a rotten extractor or recogniser); the tree under analysis may have
         # consolidated code (helpers merged, duplicated searches folded into one), so it is held to half of them: a
